@@ -337,7 +337,7 @@ func runC11Latched(rows int, victim uint32, extra []uint32, parkAt int, storeInP
 		parkedMid = true
 	case <-wdone:
 		return "", false, false, 0
-	case <-time.After(10 * time.Second):
+	case <-after(10 * time.Second):
 		return "the deleting commit did not reach a yield point within 10 s (deadlock?)", false, false, 0
 	}
 	bad := ""
@@ -377,7 +377,7 @@ func runC11Latched(rows int, victim uint32, extra []uint32, parkAt int, storeInP
 	for _, ch := range []chan struct{}{wdone, pdone} {
 		select {
 		case <-ch:
-		case <-time.After(10 * time.Second):
+		case <-after(10 * time.Second):
 			return "the deleting commit and the concurrent insert did not both finish within 10 s (deadlock?)", parkedMid, probeBlocked, probeOff
 		}
 	}
